@@ -7,10 +7,13 @@ import (
 	"fmt"
 	"io"
 	"math"
+	"os"
+	"os/exec"
 	"runtime"
 	"sync"
 	"sync/atomic"
 	"testing"
+	"time"
 
 	"github.com/cloudwego/gopkg/bufiox"
 	"github.com/cloudwego/gopkg/protocol/thrift/apache"
@@ -77,7 +80,18 @@ func checkBridge(c BridgeCase, cv *cov) (v *evid.Violation) {
 	ctx := context.Background()
 	var sawBoth, sawReset bool
 	body := func() {
-		buf := &bytes.Buffer{}
+		// the buffer lives between two other buffers in one allocation: operations through either handle
+		// must stay within it
+		var trio [3]bytes.Buffer
+		trio[0].WriteString("left neighbour")
+		trio[2].WriteString("right neighbour")
+		buf := &trio[1]
+		neighbours := func() *evid.Violation {
+			if trio[0].String() != "left neighbour" || trio[2].String() != "right neighbour" {
+				return evid.Failf("the bytes.Buffer values stored next to the transport's buffer in the same array changed: %q / %q", trio[0].String(), trio[2].String())
+			}
+			return nil
+		}
 		var tr apache.TTransport
 		if c.ViaDefault {
 			tr = apache.NewDefaultTransport(buf)
@@ -296,6 +310,10 @@ func checkBridge(c BridgeCase, cv *cov) (v *evid.Violation) {
 			}
 			if usedTr && usedBuf {
 				sawBoth = true
+			}
+			if v = neighbours(); v != nil {
+				v.Msg = fmt.Sprintf("after step %d %s(%d): %s", i, op.K, op.N, v.Msg)
+				return
 			}
 			if got := tr.RemainingBytes(); got != uint64(len(model)) || buf.Len() != len(model) {
 				v = evid.Failf("after step %d %s(%d): RemainingBytes()=%d, buffer Len()=%d, unread data has %d bytes", i, op.K, op.N, got, buf.Len(), len(model))
@@ -539,4 +557,135 @@ func TestC19_ConcurrentRegister(t *testing.T) {
 	}
 	rec.Merge(b)
 	rec.Sample(map[string]interface{}{"rounds": rounds, "goroutines_per_round": 3})
+}
+
+// ---- callbacks that use the registry themselves -----------------------------------------------------------
+
+func c19ReentrantChild(inner bool) {
+	fail := func(f string, a ...interface{}) {
+		fmt.Printf("C19-REENTRANT-FAILED: "+f+"\n", a...)
+		os.Exit(3)
+	}
+	errA, errB, errC := errors.New("A"), errors.New("B"), errors.New("C")
+	x := 1
+	// 1. a one-shot callback that replaces itself
+	apache.RegisterCheckTStruct(func(interface{}) error {
+		if inner {
+			apache.RegisterCheckTStruct(func(interface{}) error { return errB })
+		}
+		return errA
+	})
+	if err := apache.CheckTStruct(&x); err != errA {
+		fail("first call of a self-replacing check callback returned %v", err)
+	}
+	if err := apache.CheckTStruct(&x); inner && err != errB {
+		fail("second call after the callback replaced itself returned %v, want the new callback's result", err)
+	}
+	// 2. a read callback that unregisters itself
+	rd := bufiox.NewBytesReader([]byte{1})
+	apache.RegisterThriftRead(func(bufiox.Reader, interface{}) error {
+		if inner {
+			apache.RegisterThriftRead(nil)
+		}
+		return nil
+	})
+	if err := apache.ThriftRead(rd, &x); err != nil {
+		fail("self-unregistering read callback returned %v", err)
+	}
+	if err := apache.ThriftRead(rd, &x); inner && err == nil {
+		fail("ThriftRead after the callback unregistered itself returned nil")
+	}
+	// 3. a write callback that validates through CheckTStruct and recurses once
+	var tgt []byte
+	wr := bufiox.NewBytesWriter(&tgt)
+	apache.RegisterCheckTStruct(func(interface{}) error { return errC })
+	depth := 0
+	apache.RegisterThriftWrite(func(w bufiox.Writer, v interface{}) error {
+		if !inner {
+			return errC
+		}
+		depth++
+		if depth == 1 {
+			if err := apache.ThriftWrite(w, v); err != errC {
+				return fmt.Errorf("nested ThriftWrite returned %v", err)
+			}
+		}
+		return apache.CheckTStruct(v)
+	})
+	if err := apache.ThriftWrite(wr, &x); err != errC {
+		fail("write callback calling CheckTStruct and itself returned %v, want the check callback's result", err)
+	}
+	fmt.Println("C19-REENTRANT-OK")
+}
+
+func runReentrantChild(inner bool) (out []byte, timedOut bool, elapsed time.Duration) {
+	cmd := exec.Command(os.Args[0], "-test.run", "^TestC19_Reentrant$")
+	mode := "control"
+	if inner {
+		mode = "inner"
+	}
+	cmd.Env = append(os.Environ(), "VERIF_C19_CHILD="+mode, "VERIF_OUT=")
+	var buf bytes.Buffer
+	cmd.Stdout, cmd.Stderr = &buf, &buf
+	t0 := time.Now()
+	if err := cmd.Start(); err != nil {
+		return nil, false, 0
+	}
+	done := make(chan struct{})
+	go func() { cmd.Wait(); close(done) }()
+	select {
+	case <-done:
+	case <-time.After(20 * time.Second):
+		cmd.Process.Kill()
+		<-done
+		timedOut = true
+	}
+	return buf.Bytes(), timedOut, time.Since(t0)
+}
+
+// TestC19_Reentrant: callbacks that register, unregister or call callbacks while they run. The scenario
+// runs in a child process; a child that does not come back is compared with a control child that runs the
+// same calls without the inner registrations, so that a stalled machine is not mistaken for a hang.
+func TestC19_Reentrant(t *testing.T) {
+	if m := os.Getenv("VERIF_C19_CHILD"); m != "" {
+		c19ReentrantChild(m == "inner")
+		return
+	}
+	rec := evid.New("C19", "c19_reentrant", "child processes: a check callback that replaces itself while it runs, a read callback that unregisters itself, a write callback that calls CheckTStruct and (once) ThriftWrite; every call must return the result of the callback that ran and later calls must see the new registration; a child that the Go runtime reports as deadlocked is a violation; a child that has not finished after 20 s counts as a hang only if a control child (the same calls without the inner registrations) finishes normally; every child is one evaluation; non-trivial = always")
+	defer rec.Flush()
+	rec.Assume("a hang is recognised by a 20 s limit on a child whose work takes microseconds, cross-checked against a control child")
+	b := evid.NewBatch()
+	for i := 0; i < evid.Pick(2, 6); i++ {
+		out, timedOut, _ := runReentrantChild(true)
+		b.Evals++
+		b.Distinct++
+		b.Nontrivial++
+		switch {
+		case bytes.Contains(out, []byte("C19-REENTRANT-FAILED")):
+			msg := string(out)
+			if len(msg) > 600 {
+				msg = msg[:600]
+			}
+			failEnum(t, rec, "c19_bridge", BridgeCase{Ops: []TOp{{K: "reg_check"}, {K: "call_check"}}}, evid.Failf("callbacks that use the registry while they run: %s", msg))
+			rec.Merge(b)
+			return
+		case bytes.Contains(out, []byte("all goroutines are asleep - deadlock")):
+			// the Go runtime itself found the child deadlocked (no clock involved)
+			failEnum(t, rec, "c19_bridge", BridgeCase{Ops: []TOp{{K: "reg_check"}, {K: "call_check"}}}, evid.Failf("a call whose callback registers, unregisters or calls a callback never returns: the Go runtime reports the child process deadlocked (all goroutines asleep)"))
+			rec.Merge(b)
+			return
+		case timedOut:
+			cout, ctimed, cel := runReentrantChild(false)
+			if !ctimed && bytes.Contains(cout, []byte("C19-REENTRANT-OK")) {
+				failEnum(t, rec, "c19_bridge", BridgeCase{Ops: []TOp{{K: "reg_check"}, {K: "call_check"}}}, evid.Failf("a call whose callback registers, unregisters or calls a callback did not return (child killed after 20 s; the control child without the inner registrations finished in %v)", cel))
+				rec.Merge(b)
+				return
+			}
+			b.Labels["child_and_control_both_stalled_inconclusive"]++
+		case !bytes.Contains(out, []byte("C19-REENTRANT-OK")):
+			b.Labels["child_could_not_run"]++
+		}
+	}
+	rec.Merge(b)
+	rec.Sample(map[string]interface{}{"scenario": "self-replacing check callback, self-unregistering read callback, write callback calling CheckTStruct and itself"})
 }
